@@ -3,6 +3,7 @@
      config      = (kind 0 mem / 1 persistent, capacity, block_on_overflow 0/1, wait_for_result 0/1)
      label       = (tag, a, b)   tag 0 Offer(p=a, size=b) 1 SelTok a 2 SelCtx a 3 RelockTok a 4 RelockCtx a
                                      5 Cancel a 6 Read 7 Done(id=a, err class=b) 8 Result a 9 AwaitCtx a 10 Shutdown
+                                     11 Pick(object a) 12 Obj(request a carries object b)
      observation = (result code, Size(), cond.waiting, len(cond.ch)); a negative component means
                    "not observed after this label" (intermediate step of a free-running thread). *)
 From Verif Require Import Common.Base C02.Model.
@@ -33,6 +34,8 @@ Definition label_of (z : zlab) : option label :=
   | 8 => Some (LResult p)
   | 9 => Some (LAwaitCtx p)
   | 10 => Some LShutdown
+  | 11 => Some (LPick p)
+  | 12 => if b <? 0 then None else Some (LObj p (Z.to_nat b))
   | _ => None
   end.
 
